@@ -1149,6 +1149,67 @@ example :
     (FundConf.run c [.best 101, .conf 101 [2, 1], .best 102]).1.closed = true ∧
     (FundConf.run c [.conf 101 [1, 2], .best 101]).1.closed = true ∧ (FundConf.run c [.best 101, .conf 101 [1, 2]]).1.closed = true := by decide
 
+/-- The force-close decision of do_best_block_updated for a channel in ChannelReady state, as an EXACT characterisation
+    over the TRANSLATED guard (Generated mainCloseGuard: channel state, `funding_tx_confirmations == 0 && was_confirmed`
+    with was_confirmed captured before the retraction block, `minimum_depth > 0`): for every open channel, every
+    candidate list and every height, the call force-closes IFF the channel funding had a recorded block hash and has no
+    confirmation at `h` and the channel is not zero-conf — or two splice candidates are recorded as confirmed. So (R2) a
+    ready non-zero-conf channel whose funding left the chain is always closed, and (R3) a zero-conf channel, or one whose
+    funding is still confirmed at `h`, never is by the funding test. -/
+theorem funding_reorg_force_close_iff (c : Chan) (h : Nat) (hc : c.closed = false) :
+    (chanBestBlockUpdated c h).1.closed = true ↔
+      (c.main.confIn = true ∧ (c.main.confHeight = 0 ∨ h < c.main.confHeight) ∧ 0 < c.minDepth) ∨
+      confirmedCount c.cands ≥ 2 :=
+  bbu_closed_iff c h hc
+
+/-- non-vacuity: funding at 90 reorganised out at 89 closes a minimum_depth-6 channel, keeps a zero-conf one (record
+    cleared, nothing relevant), and a reorg that leaves the funding in place (h = 90) closes neither -/
+example :
+    let c : Chan := { minDepth := 6, best := 95, main := { txid := 0, confHeight := 90, confIn := true, scid := true } }
+    let z : Chan := { c with minDepth := 0 }
+    (chanBestBlockUpdated c 89).1.closed = true ∧ (chanBestBlockUpdated c 90).1.closed = false ∧
+    (chanBestBlockUpdated z 89).1.closed = false ∧ relevantTxids (chanBestBlockUpdated z 89).1 = [] ∧
+    (chanBestBlockUpdated z 89).1.main.confHeight = 0 := by decide
+
+/-- The same decision BEFORE channel_ready was exchanged (Model Pre; the state guard of the translated mainCloseGuard
+    is `is_our_channel_ready()` there): a reorganisation below the recorded confirmation of the funding of a
+    non-zero-conf channel produces no channel_ready and force-closes the channel EXACTLY when our channel_ready had
+    already been sent — before it the reorg is harmless (family PRE: both sides reached on real nodes). -/
+theorem prefunding_reorg_closes_iff_our_channel_ready_sent (p : Pre) (h : Nat) (hc : p.closed = false)
+    (hin : p.main.confIn = true) (hlt : h < p.main.confHeight) (hmd : p.minDepth ≠ 0) :
+    (preBestBlockUpdated p h).1.closed = p.ourReady ∧ (preBestBlockUpdated p h).2 = false :=
+  preBBU_closed_of_lt p h hc hin hlt hmd
+
+example :
+    let p : Pre := { minDepth := 6, best := 17, main := { txid := 0, confHeight := 12, confIn := true, scid := true } }
+    (preBestBlockUpdated p 11).1.closed = false ∧ (preBestBlockUpdated { p with ourReady := true } 11).1.closed = true := by decide
+
+/-- The two-confirmations error of FundedChannel::transactions_confirmed (candidate loop; its two decisions are the
+    TRANSLATED confirmLoopErr = `funding_already_confirmed || confirmed_funding_index.is_some()` and confirmLoopMark =
+    `funding_tx_confirmation_height != 0`): for every open channel with any number of negotiated (RBF) candidates, a
+    transaction that confirms a still-unconfirmed candidate `g` while a candidate EARLIER in negotiated_candidates
+    already has a recorded confirmation force-closes the channel ("splice tx of another pending funding already
+    confirmed") — whatever else the block holds. The other order (already-confirmed candidate LATER in the list) is
+    the documented quirk of the kernel-checked example above: recorded, closed by the next do_best_block_updated. -/
+theorem second_candidate_confirmation_closes (c : Chan) (h t : Nat) (ts : List Nat) (pre suf : List Scope) (g : Scope)
+    (hcl : c.closed = false) (hc : c.cands = pre ++ g :: suf)
+    (hpre : ∀ f ∈ pre, f.confHeight = 0 → f.txid ≠ t) (hany : ∃ f ∈ pre, f.confHeight ≠ 0)
+    (hg : g.confHeight = 0) (hgt : g.txid = t) :
+    (chanTxsConfirmed c h (t :: ts)).1.closed = true ∧ relevantTxids (chanTxsConfirmed c h (t :: ts)).1 = [] := by
+  have hcl' := txs_second_confirmation_closes c h t ts pre suf g hcl hc (fun f hf => by
+    by_cases h0 : f.confHeight = 0
+    · simp [confirmGuard, h0, hpre f hf h0]
+    · simp [confirmGuard, h0]) hany hg hgt
+  exact ⟨hcl', by simp [relevantTxids, hcl']⟩
+
+/-- non-vacuity: candidate 1 confirmed at 101; the conflicting candidate 2 (negotiated later) confirms at 102: closed at
+    once by transactions_confirmed, under both delivery orders -/
+example :
+    let c : Chan := { minDepth := 6, best := 101, main := { txid := 0, confHeight := 90, confIn := true, scid := true },
+                      cands := [{ txid := 1, confHeight := 101, confIn := true, scid := true }, { txid := 2 }, { txid := 3 }] }
+    (chanTxsConfirmed c 102 [2, 9]).1.closed = true ∧ (chanTxsConfirmed c 102 [9, 2]).1.closed = true ∧ (FundConf.run c [.best 102, .conf 102 [2]]).1.closed = true ∧
+    (chanTxsConfirmed c 102 [9, 3, 7]).1.closed = true ∧ (chanTxsConfirmed c 102 [9, 7]).1.closed = false := by decide
+
 end FundingScopes
 
 
